@@ -11,8 +11,14 @@ Tie C: (a) dispatch: the real chains / methods are run with recording stand-ins 
            grammar wrote (classification on the real bytes).
 Oracle (search): the property itself on the real classes, no model involved.
 """
+import collections
+import contextlib
 import copy
 import inspect
+import pickle
+import random as _random
+import shutil
+import tempfile
 import json
 import math
 import os
@@ -448,20 +454,195 @@ def booked(obj):
     return [int(x) for x in c[:, 1]] == [len(e) for e in evs]
 
 
-def real_methods(spec, sel, d, k2l):
+# ------------------------------------------------------------------ round-4 devices (copies, containers, environment, text)
+COPIERS = {"copy": copy.copy, "deepcopy": copy.deepcopy, "pickle": lambda x: pickle.loads(pickle.dumps(x))}
+TEXT_VARIANTS = ("crlf", "nonascii-header", "nonascii-endline", "blank-header", "crlf+nonascii")
+
+
+class FiltersDict(dict):
+    """a dict subclass: still a filter *dictionary*"""
+
+
+class Dev:
+    """which of the admissible variations are applied to one case (None = the plain way)"""
+
+    def __init__(self, copy=None, dictkind=None, text=None, env=False, inner=None):
+        self.copy = copy          # copy | deepcopy | pickle : storers before use, the filters dict, the obj-storer input
+        self.dictkind = dictkind  # subclass | ordered
+        self.text = text          # one of TEXT_VARIANTS (files)
+        self.env = env            # fresh cwd + bare relative file name, np.seterr(all='warn'), print options, advanced RNG states
+        self.inner = inner        # tuple | ndarray : container of every event of the ParticleObjectStorer input
+        self.state_changed = None
+
+    def tag(self):
+        return "+".join(x for x in [self.copy and "copy=" + self.copy, self.dictkind and "dict=" + self.dictkind,
+                                    self.text and "text=" + self.text, self.env and "env", self.inner and "inner=" + self.inner] if x) or "plain"
+
+    def json(self):
+        return dict(copy=self.copy, dictkind=self.dictkind, text=self.text, env=self.env, inner=self.inner)
+
+    def trivial(self):
+        return self.tag() == "plain"
+
+
+def dev_unjson(j):
+    return Dev(**j) if j else None
+
+
+def gen_dev(rng, is_file):
+    dev = Dev()
+    while dev.trivial():
+        if rng.random() < 0.45:
+            dev.copy = rng.choice(list(COPIERS))
+        if rng.random() < 0.3:
+            dev.dictkind = rng.choice(["subclass", "ordered"])
+        if rng.random() < 0.3:
+            dev.env = True
+        if is_file and rng.random() < 0.4:
+            dev.text = rng.choice(TEXT_VARIANTS)
+        if not is_file and rng.random() < 0.35:
+            dev.inner = rng.choice(["tuple", "ndarray"])
+    return dev
+
+
+def dev_dict(d, dev):
+    """the filters dictionary as the device hands it over"""
+    if dev is None:
+        return d
+    if dev.dictkind == "subclass":
+        d = FiltersDict(d)
+    elif dev.dictkind == "ordered":
+        d = collections.OrderedDict(d)
+    if dev.copy:
+        d = COPIERS[dev.copy](d)
+    return d
+
+
+def dev_copy(obj, dev):
+    return COPIERS[dev.copy](obj) if dev is not None and dev.copy and obj is not None else obj
+
+
+def variant_text(spec, kind):
+    """the same file with a text variation the clean readers accept (probed once per run, see text_accepted)"""
+    L = spec.lines()
+    if kind in ("nonascii-header", "crlf+nonascii"):
+        if spec.is_jetscape():
+            L[0] = L[0] + "\tJ\u00e9tsc\u00e4pe \u2013 \u6d4b\u8bd5"
+        else:
+            L[2] = "# SMASH-3.1 \u00fcn\u00efc\u00f6d\u00e9 \u2013 \u6d4b\u8bd5"
+    if kind == "nonascii-endline":
+        if spec.is_jetscape():
+            L[-1] = L[-1] + ("\t" if spec.tab_headers else " ") + "\u00b5b"
+        else:
+            L = [l.replace("scattering_projectile_target yes", "scattering_projectile_target y\u00e9s") for l in L]
+    if kind == "blank-header":
+        n = 1 if spec.is_jetscape() else 3
+        L = [l + " " if i < n else l for i, l in enumerate(L)]
+    t = "\n".join(L) + ("\n" if spec.trailing_nl else "")
+    if kind in ("crlf", "crlf+nonascii"):
+        t = t.replace("\n", "\r\n")
+    return t
+
+
+_text_ok = {}
+
+
+def text_accepted(spec, kind):
+    """does the tree under test read this variation of a small reference file of the same format like the plain
+    file?  (decided once per run and format; a variation that is not accepted is left out, with a note)"""
+    key = (spec.kind, kind, spec.tab_headers if spec.is_jetscape() else None)
+    if key not in _text_ok:
+        ref = rmodel.FileSpec(spec.kind, spec.cols, [[rmodel.gen_row(_random.Random(7), spec.cols, 1)], [],
+                                                     [rmodel.gen_row(_random.Random(8), spec.cols, 2)]], tab_headers=spec.tab_headers)
+        a = load_real(ref)[0]
+        b = load_real(ref, dev=Dev(text=kind))[0]
+        _text_ok[key] = a.startswith("ok") and a == b
+    return _text_ok[key]
+
+
+def _state():
+    return (_random.getstate(), np.random.get_state(), os.getcwd(), dict(np.geterr()))
+
+
+def _state_diff(a, b):
+    out = []
+    if a[0] != b[0]:
+        out.append("random global state")
+    if not (a[1][0] == b[1][0] and np.array_equal(a[1][1], b[1][1]) and a[1][2:] == b[1][2:]):
+        out.append("numpy.random global state")
+    if a[2] != b[2]:
+        out.append("current working directory")
+    if a[3] != b[3]:
+        out.append("numpy error settings")
+    return out
+
+
+@contextlib.contextmanager
+def environment(dev):
+    """the surroundings in which the calls of one case are made; with dev.env: a fresh working directory (files are
+    then named by a bare relative name), np.seterr(all='warn'), unusual print options, advanced global RNG states;
+    afterwards the global state must be as the calls found it (recorded in dev.state_changed) and is restored"""
+    if dev is None or not dev.env:
+        with np.errstate(all="ignore"):
+            yield
+        return
+    saved = (_random.getstate(), np.random.get_state(), os.getcwd(), np.geterr(), np.get_printoptions())
+    tmp = tempfile.mkdtemp(prefix="verif_c05_cwd_", dir=os.environ.get("VERIF_TMP", "/tmp"))
+    try:
+        os.chdir(tmp)
+        np.seterr(all="warn")
+        np.set_printoptions(precision=2, suppress=True, threshold=3, linewidth=40)
+        _random.seed(20240229)
+        [_random.random() for _ in range(11)]
+        np.random.seed(977)
+        np.random.rand(7)
+        before = _state()
+        yield
+        diff = _state_diff(before, _state())
+        if diff:
+            dev.state_changed = ", ".join(diff)
+    finally:
+        os.chdir(saved[2])
+        np.seterr(**saved[3])
+        np.set_printoptions(**saved[4])
+        _random.setstate(saved[0])
+        np.random.set_state(saved[1])
+        shutil.rmtree(tmp, ignore_errors=True)
+
+
+_relname = [0]
+
+
+def open_file(spec, dev, **kw):
+    """(constructor thunk, path to remove) for the file of `spec` as the device writes / names it"""
+    text = variant_text(spec, dev.text) if dev is not None and dev.text else None
+    if dev is None or not dev.env:
+        return rmodel.open_real(spec, text, **kw)
+    from sparkx.Oscar import Oscar
+    from sparkx.Jetscape import Jetscape
+    _relname[0] += 1
+    name = f"in{_relname[0]}" + spec.suffix()          # bare relative name in the fresh working directory
+    with open(name, "w", newline="") as f:
+        f.write(spec.text() if text is None else text)
+    if spec.is_jetscape():
+        if spec.kind == "jetscapeP":
+            kw = dict(kw, particletype="parton")
+        return (lambda: Jetscape(name, **kw)), name
+    return (lambda: Oscar(name, **kw)), name
+
+
+def real_methods(spec, sel, d, k2l, dev=None):
     """canonical result of X(file, events=sel).k1(v1)… like the `meth` op"""
     kw = {} if sel is None else {"events": sel}
-    ctor, path = rmodel.open_real(spec, None, **kw)
+    ctor, path = open_file(spec, dev, **kw)
     try:
         try:
-            with np.errstate(all="ignore"):
-                obj = ctor()
+            obj = dev_copy(ctor(), dev)       # a copy of a storer is a storer: the methods are called on the copy
         except Exception as e:
             return rmodel.classify(e), None
         b = booked(obj)
         try:
-            with np.errstate(all="ignore"):
-                apply_methods(obj, d)
+            apply_methods(obj, dev_dict(d, dev))
         except Exception as e:
             return classify(e), None
         s = f"ok booked={1 if b else 0} counts={rmodel.counts_repr(obj.num_output_per_event())} ev={show_ids(obs_events(spec, obj, k2l))}"
@@ -470,13 +651,14 @@ def real_methods(spec, sel, d, k2l):
         os.unlink(path)
 
 
-def load_real(spec, **kw):
+def load_real(spec, dev=None, **kw):
     """(canonical string like rmodel.run_real, object or None); the temporary file is always removed"""
-    ctor, path = rmodel.open_real(spec, None, **kw)
+    if dev is not None and "filters" in kw:
+        kw = dict(kw, filters=dev_dict(kw["filters"], dev))
+    ctor, path = open_file(spec, dev, **kw)
     try:
         try:
-            with np.errstate(all="ignore"):
-                obj = ctor()
+            obj = dev_copy(ctor(), dev)       # observed through its copy
         except Exception as e:
             return rmodel.classify(e), None
         k2l = key2line(spec)
@@ -593,6 +775,7 @@ def obj_events(rng):
             s = pmodel.gen_spec(rng, 0.08)
             if rng.random() < 0.15:
                 s.pop("pdg", None)  # unset PDG id: PDG-needing filters must drop the particle, on both paths
+            s["ID"] = n  # value identity: survives deepcopy / pickle of the input
             p = pmodel.make_particle(s)
             ids[id(p)] = n
             n += 1
@@ -609,7 +792,7 @@ def materialise(specs):
     for sp in specs:
         ev = []
         for s in sp:
-            p = pmodel.make_particle(s)
+            p = pmodel.make_particle(dict(s, ID=s.get("ID", n)))
             ids[id(p)] = n
             n += 1
             ev.append(p)
@@ -617,25 +800,53 @@ def materialise(specs):
     return evs, ids
 
 
-def real_obj_ctor(evs, ids, d):
-    from sparkx.ParticleObjectStorer import ParticleObjectStorer
-    try:
-        with np.errstate(all="ignore"):
-            s = ParticleObjectStorer([list(e) for e in evs], filters=d)
-    except Exception as e:
-        return classify(e), None
-    return "ok " + pmodel.ids_of(s.particle_objects_list(), ids), s
+def _pid(p, ids):
+    k = ids.get(id(p))
+    return int(p.ID) if k is None else k
 
 
-def real_obj_methods(evs, ids, d):
+def obj_ids(evs, ids):
+    return [[_pid(p, ids) for p in ev] for ev in evs]
+
+
+def obj_input(evs, dev):
+    """the nested list handed to ParticleObjectStorer: inner containers list / tuple / object ndarray, possibly copied"""
+    def inner(e):
+        if dev is not None and dev.inner == "tuple":
+            return tuple(e)
+        if dev is not None and dev.inner == "ndarray":
+            a = np.empty(len(e), dtype=object)
+            for i, p in enumerate(e):
+                a[i] = p
+            return a
+        return list(e)
+    return dev_copy([inner(e) for e in evs], dev)
+
+
+def _ids_str(evs, ids):
+    evs = obj_ids(evs, ids)
+    if len(evs) == 0:
+        return "-"
+    return "|".join("." if len(ev) == 0 else ",".join(str(i) for i in ev) for ev in evs)
+
+
+def real_obj_ctor(evs, ids, d, dev=None):
     from sparkx.ParticleObjectStorer import ParticleObjectStorer
     try:
-        with np.errstate(all="ignore"):
-            s = ParticleObjectStorer([list(e) for e in evs])
-            apply_methods(s, d)
+        s = dev_copy(ParticleObjectStorer(obj_input(evs, dev), filters=dev_dict(d, dev)), dev)
     except Exception as e:
         return classify(e), None
-    return "ok " + pmodel.ids_of(s.particle_objects_list(), ids), s
+    return "ok " + _ids_str(s.particle_objects_list(), ids), s
+
+
+def real_obj_methods(evs, ids, d, dev=None):
+    from sparkx.ParticleObjectStorer import ParticleObjectStorer
+    try:
+        s = dev_copy(ParticleObjectStorer(obj_input(evs, dev)), dev)
+        apply_methods(s, dev_dict(d, dev))
+    except Exception as e:
+        return classify(e), None
+    return "ok " + _ids_str(s.particle_objects_list(), ids), s
 
 
 # ------------------------------------------------------------------ correspondence
@@ -651,7 +862,14 @@ def correspond(ctx):
                 "filter names (keys a class does not support included), True/False switches, cut limits taken from the particles' "
                 "own values or midway between them, None limits, swapped limits; 12% malformed (unknown key, spacetime_cut not a "
                 "list, invalid argument); ASCII files without a PDG column and particle lists with unset PDG ids x PDG-needing filters "
-                "(both paths must drop such particles, none may raise); the same for ParticleObjectStorer on particle lists. non-trivial = constructor path "
+                "(both paths must drop such particles, none may raise); the same for ParticleObjectStorer on particle lists. "
+                "Devices on the real code (every device case counts): storers / the filters dict / the ParticleObjectStorer input replaced "
+                "by copy.copy / copy.deepcopy / a pickle round trip before use; filters as dict subclass / OrderedDict; inner event "
+                "containers tuple / object ndarray; excluded inputs (outer tuple, generators, one-shot inner iterators) rejected or equal "
+                "to the list; fresh cwd + bare relative file name + np.seterr(all='warn') + odd print options + advanced random / "
+                "np.random state (must be left as found); CRLF, non-ASCII free text in header / end / trailer lines, trailing blanks on "
+                "header lines (each probed once per run against the plain file) — all must leave both paths' results unchanged. "
+                "non-trivial = constructor path "
                 "succeeds, >=2 filters or events= given, and at least one particle removed and one kept, or an event emptied")
     ctx.assumptions += [
         "C05: the main theorems assume that the plain load succeeds and is Booked (2-D counts, one row per held event, second "
@@ -664,6 +882,10 @@ def correspond(ctx):
         "supplied by the harness from the real Particle.",
         "C05: dictionary values are encoded by the kind of argument the receiving filter takes (switch / int container / window / "
         "rapidity argument / threshold / [dim, window]); Python dict = association list with distinct keys.",
+        "C05: a `filters=` value that is not a dict instance (types.MappingProxyType, collections.ChainMap, a list of names) is outside "
+        "the property's quantifier ('all filter dictionaries'); all three loaders return the events unfiltered for it without an "
+        "error (observed, not judged). dict subclasses and OrderedDict are dictionaries and are judged. Trailing blanks on particle "
+        "lines / Oscar end lines are rejected by the clean readers (wrong column count / impact parameter parse) and are not generated.",
         "C05: ParticleObjectStorer: model of the events only (its count bookkeeping is C04's subject); oracle checks its counts on the real code.",
     ]
     # ---- corpus first
@@ -786,6 +1008,8 @@ def correspond(ctx):
             continue
         if norm_err(r_m) != norm_err(o_m):
             ctx.brk("correspondence-broken", f"ParticleObjectStorer(list) + methods {jdict(d)}: code `{r_m}` vs model `{o_m}`", case=case)
+    # ---- (g) devices on the real code: copies, dict kinds, containers, environment, text variations
+    run_devices(ctx, ctx.n(240, 3000))
 
 
 def norm_pair(s):
@@ -876,14 +1100,14 @@ def _nan_pdg(p):
     return isinstance(v, float) and v != v
 
 
-def oracle_file(cls, spec, sel, d):
+def oracle_file(cls, spec, sel, d, dev=None):
     """None or (key, what): X(file, events=sel, filters=d)  vs  X(file, events=sel).k1(v1)…"""
     k2l = key2line(spec)
     kw = {} if sel is None else {"events": sel}
-    r_c, o_c = load_real(spec, filters=d, **kw)
+    r_c, o_c = load_real(spec, dev, filters=d, **kw)
     if True:
-        r_m, o_m = real_methods(spec, sel, d, k2l)
-        plain, o_p = load_real(spec, **kw)
+        r_m, o_m = real_methods(spec, sel, d, k2l, dev)
+        plain, o_p = load_real(spec, dev, **kw)
         if plain.startswith("err"):
             return None  # the selection itself is invalid: outside the property
         unknown = [k for k in d if k not in pmodel.ALL_FILTERS]
@@ -904,7 +1128,7 @@ def oracle_file(cls, spec, sel, d):
             on = pdg_filters_on(d)
             if on and o_p is not None and any(_nan_pdg(p) for ev in o_p.particle_objects_list() for p in ev):
                 d0 = {k: v for k, v in d.items() if k not in on}
-                r0 = load_real(spec, filters=d0, **kw)[0] if d0 else plain
+                r0 = load_real(spec, dev, filters=d0, **kw)[0] if d0 else plain
                 if not r0.startswith("err"):
                     return (f"{cls}:raises-on-unset-pdg", f"{cls} events={sel} filters={jdict(d)}: both paths raise ({r_c} / {r_m}) on "
                                                           f"particles without PDG id; without {on} nothing raises")
@@ -931,7 +1155,7 @@ def oracle_file(cls, spec, sel, d):
         # a switch that is False has no effect
         if any(v is False for v in d.values()):
             d2 = {k: v for k, v in d.items() if v is not False}
-            r2, o2 = load_real(spec, filters=d2, **kw) if d2 else load_real(spec, **kw)
+            r2, o2 = load_real(spec, dev, filters=d2, **kw) if d2 else load_real(spec, dev, **kw)
             if o2 is not None:
                 ev2 = nonempty(obs_events(spec, o2, k2l))
                 if ev2 != ev_c:
@@ -939,9 +1163,9 @@ def oracle_file(cls, spec, sel, d):
         return None
 
 
-def oracle_obj(evs, ids, d):
-    r_c, s_c = real_obj_ctor(evs, ids, d)
-    r_m, s_m = real_obj_methods(evs, ids, d)
+def oracle_obj(evs, ids, d, dev=None):
+    r_c, s_c = real_obj_ctor(evs, ids, d, dev)
+    r_m, s_m = real_obj_methods(evs, ids, d, dev)
     unknown = [k for k in d if k not in pmodel.ALL_FILTERS]
     if unknown:
         if not r_c.startswith("err"):
@@ -955,7 +1179,7 @@ def oracle_obj(evs, ids, d):
         on = pdg_filters_on(d)
         if on and any(_nan_pdg(p) for ev in evs for p in ev):
             d0 = {k: v for k, v in d.items() if k not in on}
-            if not real_obj_ctor(evs, ids, d0)[0].startswith("err"):
+            if not real_obj_ctor(evs, ids, d0, dev)[0].startswith("err"):
                 return ("obj:raises-on-unset-pdg", f"ParticleObjectStorer filters={jdict(d)}: both paths raise ({r_c} / {r_m}) on "
                                                    f"particles without PDG id; without {on} nothing raises")
         return None
@@ -963,7 +1187,7 @@ def oracle_obj(evs, ids, d):
         return ("obj:unset-pdg-survives", f"ParticleObjectStorer(list, filters={jdict(d)}) keeps a particle without PDG id "
                                           f"although {pdg_filters_on(d)} need one")
     if s_c is not None:
-        ev_c0 = nonempty([[ids[id(p)] for p in ev] for ev in s_c.particle_objects_list()])
+        ev_c0 = nonempty(obj_ids(s_c.particle_objects_list(), ids))
         cc0 = counts_of_nonempty(s_c)
         if cc0 != [len(e) for e in ev_c0]:
             return ("obj:ctor-counts-stale", f"ParticleObjectStorer(list, filters={jdict(d)}): counts of the non-empty events {cc0}, "
@@ -973,8 +1197,8 @@ def oracle_obj(evs, ids, d):
                                         "('list' object has no attribute 'ndim'): the method path of the property does not exist (C04)")
     if r_m.startswith("err") != r_c.startswith("err"):
         return ("obj:one-path-raises", f"ParticleObjectStorer filters={jdict(d)}: constructor `{r_c}` but methods `{r_m}`")
-    ev_c = nonempty([[ids[id(p)] for p in ev] for ev in s_c.particle_objects_list()])
-    ev_m = nonempty([[ids[id(p)] for p in ev] for ev in s_m.particle_objects_list()])
+    ev_c = nonempty(obj_ids(s_c.particle_objects_list(), ids))
+    ev_m = nonempty(obj_ids(s_m.particle_objects_list(), ids))
     if ev_c != ev_m:
         return ("obj:events-differ", f"ParticleObjectStorer filters={jdict(d)}: constructor holds {ev_c}, methods hold {ev_m}")
     want = [len(e) for e in ev_m]
@@ -985,14 +1209,191 @@ def oracle_obj(evs, ids, d):
     return None
 
 
-def shrink_file(cls, spec, sel, d, key):
+# ------------------------------------------------------------------ devices: judged on the real code
+DEVICE_KEY = [("text", "text-variant-differs"), ("copy", "copy-differs"), ("env", "environment-dependent"),
+              ("dictkind", "dict-kind-differs"), ("inner", "container-differs")]
+
+
+def _single_devs(dev):
+    out = []
+    for f, key in DEVICE_KEY:
+        v = getattr(dev, f)
+        if v:
+            out.append((Dev(**{f: v}), key))
+    return out
+
+
+def observe_file(cls, spec, sel, d, dev):
+    """what both paths hold: (status, non-empty events as file lines, their counts) for constructor and methods"""
+    k2l = key2line(spec)
+    kw = {} if sel is None else {"events": sel}
+    with environment(dev):
+        r_c, o_c = load_real(spec, dev, filters=d, **kw)
+        r_m, o_m = real_methods(spec, sel, d, k2l, dev)
+
+    def ob(o):
+        return ("err",) if o is None else ("ok", nonempty(obs_events(spec, o, k2l)), counts_of_nonempty(o))
+    return ob(o_c), ob(o_m)
+
+
+def device_file(cls, spec, sel, d, dev):
+    """None | "skipped" | (key, what): the property under the device, and: the device changes nothing observable"""
+    if dev.text and not text_accepted(spec, dev.text):
+        return "skipped"
+    dev.state_changed = None
+    with environment(dev):
+        r = oracle_file(cls, spec, sel, d, dev)
+    if dev.state_changed:
+        return (f"{cls}:global-state-changed", f"{cls} events={sel} filters={jdict(d)}: the calls changed the {dev.state_changed}")
+    if r:
+        return (r[0], r[1] + f"  [with {dev.tag()}]")
+    base = observe_file(cls, spec, sel, d, None)
+    if observe_file(cls, spec, sel, d, dev) != base:
+        key, which, got = "device-changes-result", dev, None
+        for one, k in _single_devs(dev):
+            got = observe_file(cls, spec, sel, d, one)
+            if got != base:
+                key, which = k, one
+                break
+        return (f"{cls}:{key}", f"{cls} events={sel} filters={jdict(d)}: with {which.tag()} constructor/methods hold "
+                                f"{got if got is not None else observe_file(cls, spec, sel, d, dev)}, plainly {base}")
+    return None
+
+
+def observe_obj(evs, ids, d, dev):
+    with environment(dev):
+        r_c, s_c = real_obj_ctor(evs, ids, d, dev)
+        r_m, s_m = real_obj_methods(evs, ids, d, dev)
+
+    def ob(o):
+        return ("err",) if o is None else ("ok", nonempty(obj_ids(o.particle_objects_list(), ids)), counts_of_nonempty(o))
+    return ob(s_c), ob(s_m)
+
+
+def device_obj(evs, ids, d, dev):
+    dev.state_changed = None
+    with environment(dev):
+        r = oracle_obj(evs, ids, d, dev)
+    if dev.state_changed:
+        return ("obj:global-state-changed", f"ParticleObjectStorer filters={jdict(d)}: the calls changed the {dev.state_changed}")
+    if r:
+        return (r[0], r[1] + f"  [with {dev.tag()}]")
+    base = observe_obj(evs, ids, d, None)
+    if observe_obj(evs, ids, d, dev) != base:
+        key, which, got = "device-changes-result", dev, None
+        for one, k in _single_devs(dev):
+            got = observe_obj(evs, ids, d, one)
+            if got != base:
+                key, which = k, one
+                break
+        return (f"obj:{key}", f"ParticleObjectStorer filters={jdict(d)}: with {which.tag()} constructor/methods hold "
+                              f"{got if got is not None else observe_obj(evs, ids, d, dev)}, plainly {base}")
+    return None
+
+
+def obj_iterator_inputs(evs, ids, d):
+    """inputs the documentation excludes ("a list of lists"): outer tuple / object array / generator, one-shot inner
+    iterators.  Either they are rejected (as on the clean tree) or, if a tree accepts them, they must give what the
+    list gives — on both paths."""
+    base = observe_obj(evs, ids, d, None)
+    makers = {"outer-tuple": lambda: tuple(list(e) for e in evs),
+              "outer-generator": lambda: (list(e) for e in evs),
+              "outer-map": lambda: map(list, evs),
+              "inner-iterator": lambda: [iter(list(e)) for e in evs],
+              "inner-generator": lambda: [(p for p in e) for e in evs]}
+    from sparkx.ParticleObjectStorer import ParticleObjectStorer
+    for name, mk in makers.items():
+        for path in ("ctor", "meth"):
+            try:
+                if path == "ctor":
+                    st = ParticleObjectStorer(mk(), filters=d)
+                else:
+                    st = ParticleObjectStorer(mk())
+                    apply_methods(st, d)
+            except Exception:
+                continue  # rejected
+            got = ("ok", nonempty(obj_ids(st.particle_objects_list(), ids)), counts_of_nonempty(st))
+            want = base[0] if path == "ctor" else base[1]
+            if got != want:
+                return ("obj:iterator-input-differs", f"ParticleObjectStorer accepts a {name} input ({path} path) but holds {got}; "
+                                                      f"the list input gives {want} (filters={jdict(d)})")
+    return None
+
+
+def shrink_dev(judge, dev, key):
+    """drop the variations that are not needed for the failure"""
+    cur = dev
+    for f, _ in DEVICE_KEY:
+        if getattr(cur, f):
+            j = cur.json()
+            j[f] = False if f == "env" else None
+            cand = Dev(**j)
+            if cand.trivial():
+                continue
+            try:
+                r = judge(cand)
+            except Exception:
+                continue
+            if isinstance(r, tuple) and r[0] == key:
+                cur = cand
+    return cur
+
+
+def run_devices(ctx, n):
+    rng = ctx.rng
+    seen = set()
+    skipped = 0
+    for i in range(n):
+        if i % 3 == 2:
+            evs, ids, specs = obj_events(rng)
+            d, tag = gen_dict(rng, "obj", [p for ev in evs for p in ev], malformed=rng.random() < 0.3)
+            dev = gen_dev(rng, False)
+            ctx.case(("device-obj", repr(specs), repr(jdict(d)), dev.tag()), True)
+            ctx.count("device/obj/" + dev.tag())
+            r = device_obj(evs, ids, d, dev)
+            if r is None and i % 15 == 2:
+                r = obj_iterator_inputs(evs, ids, d)
+                ctx.count("device/obj/iterator-inputs")
+            if isinstance(r, tuple) and r[0] not in seen:
+                seen.add(r[0])
+                dev = shrink_dev(lambda dv: device_obj(evs, ids, d, dv), dev, r[0])
+                r = device_obj(evs, ids, d, dev) or r
+                ctx.violation(r[0], r[1], dict(input=dict(cls="obj", events=specs, filters=jdict(d), dev=dev.json()),
+                                               how_to_replay="./check C05 --replay <this file>"))
+            continue
+        cls = "oscar" if rng.random() < 0.55 else "jetscape"
+        spec = gen_file(rng, ["oscar2013", "oscar2013", "extended", "ascii"] if cls == "oscar" else ["jetscape", "jetscapeP"])
+        d, tag = gen_dict(rng, cls, particles_of(spec), malformed=rng.random() < 0.3)
+        sel = gen_sel(rng, len(spec.events))
+        dev = gen_dev(rng, True)
+        r = device_file(cls, spec, sel, d, dev)
+        if r == "skipped":
+            skipped += 1
+            ctx.count("device/text-variant-not-accepted/" + dev.text)
+            continue
+        ctx.case(("device", cls, spec.text(), repr(sel), repr(jdict(d)), dev.tag()), True)
+        ctx.count("device/file/" + dev.tag())
+        if isinstance(r, tuple) and r[0] not in seen:
+            seen.add(r[0])
+            dev = shrink_dev(lambda dv: device_file(cls, spec, sel, d, dv), dev, r[0])
+            s2, d2 = shrink_file(cls, spec, sel, d, r[0], dev)
+            r2 = device_file(cls, s2, sel, d2, dev)
+            r2 = r2 if isinstance(r2, tuple) else r
+            ctx.violation(r[0], r2[1], dict(input=dict(cls=cls, spec=spec_json(s2), events=jval(sel), filters=jdict(d2), dev=dev.json()),
+                                            how_to_replay="./check C05 --replay <this file>"))
+    bad = sorted({k for k, v in _text_ok.items() if not v})
+    if bad:
+        ctx.notes.append("text variations the tree under test does not read like the plain file (left out): " + ", ".join(map(str, bad)))
+
+
+def shrink_file(cls, spec, sel, d, key, dev=None):
     """greedy: drop dictionary entries, then events (only without events=), then particles"""
     def fails(sp, dd):
         try:
-            r = oracle_file(cls, sp, sel, dd)
+            r = device_file(cls, sp, sel, dd, dev) if dev is not None else oracle_file(cls, sp, sel, dd)
         except Exception:
             return False
-        return r is not None and r[0] == key
+        return isinstance(r, tuple) and r[0] == key
     cur_s, cur_d = spec, dict(d)
     changed = True
     while changed:
@@ -1064,12 +1465,15 @@ def search(ctx, budget_s):
 def run_input(inp):
     """oracle on a stored input; returns None or (key, what)"""
     d = unjdict(inp["filters"])
+    dev = dev_unjson(inp.get("dev"))
     if inp["cls"] == "obj":
         evs, ids = materialise(inp["events"])
-        return oracle_obj(evs, ids, d)
+        r = device_obj(evs, ids, d, dev) if dev else oracle_obj(evs, ids, d)
+        return r if r is not None or dev else obj_iterator_inputs(evs, ids, d) if inp.get("iterators") else r
     spec = spec_unjson(inp["spec"])
     sel = unjval(inp.get("events"))
-    return oracle_file(inp["cls"], spec, sel, d)
+    r = device_file(inp["cls"], spec, sel, d, dev) if dev else oracle_file(inp["cls"], spec, sel, d)
+    return r if isinstance(r, tuple) else None
 
 
 def run_corpus(ctx):
